@@ -224,6 +224,10 @@ func (s *TO0Server) acceptOwner(ctx context.Context, msg io.Reader) (*to0AcceptO
 	}
 
 	// Verify to0d hash matches to0d
+	if sig.To1d.Payload == nil {
+		captureErr(ctx, protocol.InvalidMessageErrCode, "")
+		return nil, fmt.Errorf("to1d payload is missing")
+	}
 	to0dHashFunc, err := hashFuncFor(sig.To1d.Payload.Val.To0dHash.Algorithm)
 	if err != nil {
 		captureErr(ctx, protocol.InvalidMessageErrCode, "")
